@@ -3,7 +3,7 @@ import BoltonsVerif.C16.Model
 /-
 C16 line protocol (strings travel as hex of UTF-8, `-` = empty string).
 
-  T <text>                                  ParsedException.from_string(text) (+ to_string, source_file)
+  T <text>                                  ParsedException.from_string(text) (+ to_string)
   T <text> <type> <msg> <nl> <frame>*       same, plus the structured data the text was generated from:
         frame = file,lineno,func,src,anchor   (src `-` = no source line, anchor `!` = no marker line)
         nl = 1 when the text carries the interpreter's final newline
@@ -37,8 +37,7 @@ def showParsed (form : Form) (pe : PE) : String :=
   let fr := if pe.frames.isEmpty then "-" else " ".intercalate (pe.frames.map (showFrame form))
   -- to_string() of frames read from the SyntaxError form is outside the statement: `~` on both sides
   let str := if form = .se && !pe.frames.isEmpty then "~" else hx (toString pe)
-  let sf := match pe.frames.getLast? with | none => "!" | some f => hx f.file
-  s!"ok n={pe.frames.length} {fr} | {hx pe.etype} {hx pe.msg} | {str} | {sf}"
+  s!"ok n={pe.frames.length} {fr} | {hx pe.etype} {hx pe.msg} | {str}"
 
 def parseFrameTok (w : String) : Option (Frame × Option Str) :=
   match splitOnChar w ',' with
